@@ -11,8 +11,10 @@
                                     (GetVerificationLevel is C02_Levels.get_level)
      internal/file/file.go          IsValidFileName             (after fix 7fbf478)
      internal/pkix/pkix.go          ParseDistinguishedName, IsSubsetDN  (C04_DN)
-     verifier/verifier.go           NewVerifierWithOptions: the nil checks and the
-                                    two Validate calls
+     verifier/verifier.go           NewVerifierWithOptions: the nil checks (trust
+                                    store, both documents) and the two Validate
+                                    calls; the deprecated wrappers New and
+                                    NewWithOptions ([ctor], [construct])
 
    Constants: the level tables, validation types/actions, store types, the two
    timestamp options and the three regular expressions come from Generated.v
